@@ -143,6 +143,16 @@ def signature_grids(tier, out, stats):
     items = [(("pin",), (lambda: gpio.PinSignature()), dict(i=(1, False, "In"), o=(1, False, "Out"), oe=(1, False, "Out"))),
              (("pin",), (lambda: gpio.PinSignature()), None)]
     allsigs += check_grid("gpio.PinSignature", items, out, stats)
+    # signatures of different classes with IDENTICAL members, and plain wiring.Signature look-alikes: never equal
+    for w in (1, 2, 8):
+        pairs = [(csr.Element.Signature(w, "rw"), csr.FieldPort.Signature(unsigned(w), "rw")),
+                 (csr.Signature(addr_width=w, data_width=w), wiring.Signature(dict(csr.Signature(addr_width=w, data_width=w).members))),
+                 (event.Source.Signature(trigger="rise"), wiring.Signature(dict(event.Source.Signature(trigger="rise").members))),
+                 (gpio.PinSignature(), wiring.Signature(dict(gpio.PinSignature().members)))]
+        for a, b in pairs:
+            stats["pairs"] += 1
+            if a == b or b == a:
+                out.append(viol(f"signatures of different classes compare equal: {a!r} / {b!r}", "eq_cross_class"))
     # across classes: never equal
     reps = {}
     for p, s in allsigs:
